@@ -204,6 +204,7 @@ def _jobs(tier):
         add(n=6, trading='3m', data=[], fast=True, free_open=[3], warm=3)
         add(n=4, trading='1m', data=['3m'], fast=False, free_open=[], warm=0)
         add(n=5, trading='1m', data=['3m'], fast=False, free_open=[], warm=3, entry=True)  # a fill inside a minute publishes a partial candle
+        add(n=6, trading='3m', data=['5m'], fast=True, free_open=[], warm=15)  # route timeframes that are not multiples of each other
     else:
         for fast in (False, True):
             add(n=7, trading='1m', data=['3m'], fast=fast, free_open=[1, 4], warm=3)
